@@ -319,7 +319,21 @@ func runC04(seed int64, n int, tier string, outDir string) (*Report, error) {
 				c04MaxRatio = r
 				c04MaxRatioAt = fmt.Sprintf("%s on %d bytes: %d allocated", e.name, len(in), da)
 			}
-			if dt > 2*time.Second || (dt > 300*time.Millisecond && len(in) < 100000) {
+			slow := func(d time.Duration) bool { return d > 2*time.Second || (d > 300*time.Millisecond && len(in) < 100000) }
+			// a loaded machine can stall one call: a slow call is measured again (three more times) and judged by the
+			// fastest run - an input the code is slow on stays slow
+			for retry := 0; retry < 3 && slow(dt); retry++ {
+				rep.Count("timing-remeasured")
+				t1 := time.Now()
+				func() {
+					defer func() { _ = recover() }()
+					_, _ = e.call(in)
+				}()
+				if d := time.Since(t1); d < dt {
+					dt = d
+				}
+			}
+			if slow(dt) {
 				rep.Violate(Violation{Op: e.name, Input: fmt.Sprintf("%q", trunc(string(in), 120)), Expected: "time proportional to the input", Observed: fmt.Sprintf("%v for %d bytes", dt, len(in)), Index: ii})
 			}
 			if err != nil {
